@@ -88,8 +88,10 @@ def Leaf.WT (cj : K → K) (I : K) : Leaf K → Prop
       (∀ k, R.W 0 k = 1) ∧ R.real = S.real
   | .flattenInv R S => S.m = 1 ∧ R.m = 1 ∧ R.n 0 = S.n 0 ∧ (∀ i, S.W 0 i ≠ 0) ∧ realW cj S ∧
       (∀ k, R.W 0 k = 1) ∧ R.real = S.real
-  | .proj P Q idx => Leaf.Assumed cj I (.proj P Q idx)
-  | .projAdj Q P idx => Leaf.Assumed cj I (.projAdj Q P idx)
+  | .proj P Q idx => Q.real = P.real ∧ (∀ k, k < Q.m → idx k < P.m ∧ Q.n k = P.n (idx k) ∧
+      ∀ i, Q.W k i = P.W (idx k) i) ∧ (∀ k l, k < Q.m → l < Q.m → idx k = idx l → k = l)
+  | .projAdj Q P idx => Q.real = P.real ∧ (∀ k, k < Q.m → idx k < P.m ∧ Q.n k = P.n (idx k) ∧
+      ∀ i, Q.W k i = P.W (idx k) i) ∧ (∀ k l, k < Q.m → l < Q.m → idx k = idx l → k = l)
 
 def Impl.needRe : Impl K → Prop
   | .leaf l => l.needRe
@@ -279,5 +281,77 @@ theorem cembed_pair (hcj : ∀ a, cj (cj a) = a) (I : K) (S : Space K) (s : K)
       refine sum_congr rfl fun j _ => sum_congr rfl fun i _ => ?_
       simp only [reK, imK]; ring
     rw [e1, e2, phi_re cj φ (hφ hre) h2]
+
+/-! ### component projections -/
+
+omit [DecidableEq K] in
+/-- `out = 0; out[index] = x` equals the sum over the (distinct) indices. -/
+theorem assignTo_eq_sum (idx : Nat → Nat) (y : El K) (j i : Nat) (m : Nat)
+    (hinj : ∀ k l, k < m → l < m → idx k = idx l → k = l) :
+    assignTo idx y j i m = ∑ k ∈ range m, if idx k = j then y k i else 0 := by
+  induction m with
+  | zero => simp [assignTo]
+  | succ m ih =>
+    rw [assignTo, sum_range_succ, ih (fun k l hk hl => hinj k l (by omega) (by omega))]
+    by_cases e : idx m = j
+    · simp only [e, if_true]
+      have : ∑ k ∈ range m, (if idx k = j then y k i else 0) = 0 := by
+        refine sum_eq_zero fun k hk => ?_
+        have hk' := mem_range.mp hk
+        have : idx k ≠ j := fun h => by
+          have := hinj k m (by omega) (by omega) (h.trans e.symm); omega
+        simp [this]
+      rw [this, zero_add]
+    · simp [e]
+
+/-- The pairing identity of ComponentProjection / ComponentProjectionAdjoint. -/
+theorem proj_dot (P Q : Space K) (idx : Nat → Nat)
+    (hk : ∀ k, k < Q.m → idx k < P.m ∧ Q.n k = P.n (idx k) ∧ ∀ i, Q.W k i = P.W (idx k) i)
+    (hinj : ∀ k l, k < Q.m → l < Q.m → idx k = idx l → k = l) (x y : El K) :
+    dot cj Q (fun j i => x (idx j) i) y =
+      dot cj P x (fun j i => assignTo idx y j i Q.m) := by
+  simp only [dot_eq]
+  have key : ∀ j ∈ range P.m, ∀ i ∈ range (P.n j),
+      P.W j i * x j i * cj (assignTo idx y j i Q.m) =
+      ∑ k ∈ range Q.m, if idx k = j then P.W j i * x j i * cj (y k i) else 0 := by
+    intro j _ i _
+    rw [assignTo_eq_sum idx y j i Q.m hinj, map_sum, mul_sum]
+    refine sum_congr rfl fun k _ => ?_
+    by_cases e : idx k = j <;> simp [e]
+  rw [sum_congr rfl fun j hj => sum_congr rfl fun i hi => key j hj i hi]
+  rw [sum_congr rfl fun j _ => sum_comm, sum_comm]
+  refine sum_congr rfl fun k hk' => ?_
+  obtain ⟨h1, h2, h3⟩ := hk k (mem_range.mp hk')
+  have : ∀ j ∈ range P.m, (∑ i ∈ range (P.n j),
+      if idx k = j then P.W j i * x j i * cj (y k i) else 0) =
+      if idx k = j then ∑ i ∈ range (P.n j), P.W j i * x j i * cj (y k i) else 0 := by
+    intro j _; by_cases e : idx k = j <;> simp [e]
+  rw [sum_congr rfl this, sum_ite_eq (range P.m) (idx k)]
+  simp only [mem_range, h1, if_true, h2, h3]
+
+/-- The same identity with the roles of the two arguments exchanged. -/
+theorem proj_dot' (P Q : Space K) (idx : Nat → Nat)
+    (hk : ∀ k, k < Q.m → idx k < P.m ∧ Q.n k = P.n (idx k) ∧ ∀ i, Q.W k i = P.W (idx k) i)
+    (hinj : ∀ k l, k < Q.m → l < Q.m → idx k = idx l → k = l) (y x : El K) :
+    dot cj P (fun j i => assignTo idx y j i Q.m) x =
+      dot cj Q y (fun j i => x (idx j) i) := by
+  simp only [dot_eq]
+  have key : ∀ j ∈ range P.m, ∀ i ∈ range (P.n j),
+      P.W j i * assignTo idx y j i Q.m * cj (x j i) =
+      ∑ k ∈ range Q.m, if idx k = j then P.W j i * y k i * cj (x j i) else 0 := by
+    intro j _ i _
+    rw [assignTo_eq_sum idx y j i Q.m hinj, mul_sum, sum_mul]
+    refine sum_congr rfl fun k _ => ?_
+    by_cases e : idx k = j <;> simp [e]
+  rw [sum_congr rfl fun j hj => sum_congr rfl fun i hi => key j hj i hi]
+  rw [sum_congr rfl fun j _ => sum_comm, sum_comm]
+  refine sum_congr rfl fun k hk' => ?_
+  obtain ⟨h1, h2, h3⟩ := hk k (mem_range.mp hk')
+  have : ∀ j ∈ range P.m, (∑ i ∈ range (P.n j),
+      if idx k = j then P.W j i * y k i * cj (x j i) else 0) =
+      if idx k = j then ∑ i ∈ range (P.n j), P.W j i * y k i * cj (x j i) else 0 := by
+    intro j _; by_cases e : idx k = j <;> simp [e]
+  rw [sum_congr rfl this, sum_ite_eq (range P.m) (idx k)]
+  simp only [mem_range, h1, if_true, h2, h3]
 
 end OdlModel.Adjoint
